@@ -58,7 +58,7 @@ func c06ParseSizes(s string) [][]int {
 // NAL units, sizes per sample in `sizes`; the first NAL unit of every sample is a video slice
 // type 5, further ones are SEI type 6) or "aac" (audio samples of the given sizes).
 // It asserts both the round trip (C06) and the well-formedness of the encrypted form (C07).
-func VerifC06(codec string, scheme string, ivLen int, sizes string, extraBox bool) {
+func VerifC06(codec string, scheme string, ivLen int, sizes string, extraBox bool, separate bool) {
 	var init *InitSegment
 	if codec == "avc" {
 		init = fileInit(1, true)
@@ -278,11 +278,30 @@ func VerifC06(codec string, scheme string, ivLen int, sizes string, extraBox boo
 	var ib, fb bytes.Buffer
 	vfy.Assert(init.Encode(&ib) == nil, "protected init encodes")
 	vfy.Assert(frag.Encode(&fb) == nil, "encrypted fragment encodes")
-	all := append(append([]byte{}, ib.Bytes()...), fb.Bytes()...)
-	f, err := DecodeFile(bytes.NewReader(all))
-	vfy.Assert(err == nil, "protected init + fragment decodes")
-	if err != nil {
-		return
+	var f *File
+	if separate {
+		// the DASH/CMAF flow: init and media segment are decoded on their own; the media
+		// segment is decoded without a moov, so the senc IV size is not known up front.
+		// (instances use at most two samples: a senc payload of n 16-byte-IV entries can be
+		// mis-read exactly with a smaller IV size only if 16n is a multiple of 6)
+		f, err = DecodeFile(bytes.NewReader(ib.Bytes()))
+		vfy.Assert(err == nil, "protected init decodes")
+		if err != nil {
+			return
+		}
+		fm, err := DecodeFile(bytes.NewReader(fb.Bytes()))
+		vfy.Assert(err == nil, "encrypted media segment decodes on its own")
+		if err != nil {
+			return
+		}
+		f.Segments = fm.Segments
+	} else {
+		all := append(append([]byte{}, ib.Bytes()...), fb.Bytes()...)
+		f, err = DecodeFile(bytes.NewReader(all))
+		vfy.Assert(err == nil, "protected init + fragment decodes")
+		if err != nil {
+			return
+		}
 	}
 	di, err := DecryptInit(f.Init)
 	vfy.Assert(err == nil, "DecryptInit succeeds")
